@@ -30,6 +30,13 @@ def use_repo():
         raise HarnessError('rsocket imported from %s, expected %s' % (origin, REPO))
 
 
+class CaseTimeout(KeyboardInterrupt):
+    """A single case did not finish: the wall-clock guard of run_program fired (programs take milliseconds), or a decoder
+    produced an impossible number of frames from one chunk. Derived from KeyboardInterrupt: no `except Exception` in the
+    code under test swallows it, and asyncio re-raises it out of the running loop instead of parking it in a task or in the
+    loop's exception handler. C12 reports it as non-termination; elsewhere it surfaces as a harness error (exit 2)."""
+
+
 class HarnessError(Exception):
     """Something is wrong with the harness or with an internal name it relies on (exit 2, never a VIOLATION)."""
 
@@ -245,35 +252,30 @@ def _shard_entry(args):
         return ('harness', traceback.format_exc())
 
 
+def _run_pool(jl, nproc):
+    """Worker processes for the shards. A worker that dies (killed by the kernel, a crash in a C extension) breaks the
+    executor instead of leaving the parent waiting for ever: that is reported as a harness error."""
+    if len(jl) == 1 or nproc == 1:
+        return [_shard_entry(j) for j in jl]
+    import concurrent.futures as cf
+    ctx = multiprocessing.get_context('fork')
+    try:
+        with cf.ProcessPoolExecutor(max_workers=min(nproc, len(jl)), mp_context=ctx) as ex:
+            return list(ex.map(_shard_entry, jl, chunksize=1))
+    except cf.process.BrokenProcessPool as e:
+        raise HarnessError('a worker process died: %r' % (e,))
+
+
 def run_shards(modname, fn, kwargs_list, nproc=None):
     """Run fn(**kwargs) for each kwargs in worker processes; merge Stats."""
-    nproc = nproc or NPROC
-    merged = Stats()
-    jobs = [(modname, fn, kw) for kw in kwargs_list]
-    if len(jobs) == 1 or nproc == 1:
-        results = [_shard_entry(j) for j in jobs]
-    else:
-        ctx = multiprocessing.get_context('fork')
-        with ctx.Pool(min(nproc, len(jobs)), maxtasksperchild=None) as pool:
-            results = pool.map(_shard_entry, jobs, chunksize=1)
-    for status, payload in results:
-        if status != 'ok':
-            raise HarnessError('shard failed:\n' + payload)
-        merged.merge(payload)
-    return merged
+    return run_shards_multi(modname, [(fn, kw) for kw in kwargs_list], nproc)
 
 
 def run_shards_multi(modname, jobs, nproc=None):
     """jobs: list of (function name, kwargs)."""
     nproc = nproc or NPROC
     merged = Stats()
-    jl = [(modname, fn, kw) for fn, kw in jobs]
-    if len(jl) == 1 or nproc == 1:
-        results = [_shard_entry(j) for j in jl]
-    else:
-        ctx = multiprocessing.get_context('fork')
-        with ctx.Pool(min(nproc, len(jl))) as pool:
-            results = pool.map(_shard_entry, jl, chunksize=1)
+    results = _run_pool([(modname, fn, kw) for fn, kw in jobs], nproc)
     for status, payload in results:
         if status != 'ok':
             raise HarnessError('shard failed:\n' + payload)
